@@ -43,6 +43,12 @@ def run(ctx):
         for _ in range(rng.randint(1, 5)):
             L = rng.choice([1, 2, 3, 4, 4, 5, 6, 7])
             terms[tuple((rng.choice(pool), rng.randint(0, 1)) for _ in range(L))] = dyc(rng)
+        if i % 6 == 5:
+            # two spellings of one word with large, nearly cancelling coefficients: the remainder must survive
+            a_, b_ = rng.sample(pool, 2); fa, fb = (a_, rng.randint(0, 1)), (b_, rng.randint(0, 1))
+            big = rng.choice([2.0 ** 31, -(2.0 ** 33), 2.0 ** 30]); rem = rng.choice([0.5, -1.25, 2.0])
+            terms = {(fa, fb): big, (fb, fa): big + rem}
+            if rng.random() < 0.5: terms[((a_, 1), (a_, 0))] = 0.75
         fop = mk_fermion(of, terms)
         out = of.normal_ordered(fop)
         if not exact_terms_ok(out.terms) or not exact_terms_ok(fop.terms): ctx.stat('fermi_ops', 'discarded_inexact'); continue
